@@ -31,6 +31,31 @@ def bdat_row(g):
     return int(m.group(1), 0), int(m.group(2)), int(m.group(3))
 
 
+def table_rows(g):
+    """rows of commands[] in order: name -> (index, mask, state, flags); CHUNKING rows included"""
+    t = g.text('qsmtpd/qsmtpd.c') or ''
+    rows = {}
+    for i, m in enumerate(re.finditer(r'^\s*_C\("([^"]+)",\s*(0x[0-9a-fA-F]+|\d+),\s*\w+,\s*(-?(?:0x[0-9a-fA-F]+|\d+)),\s*(\d+)\)', t, re.M)):
+        rows[m.group(1)] = (i, int(m.group(2), 0), int(m.group(3), 0), int(m.group(4)))
+    return rows
+
+
+def row_consts(g):
+    """what the harness' dispatcher and Bdat.session need of the RSET / MAIL FROM: / RCPT TO: rows:
+    masks, and the state the loop moves to after success (state > 0: that value, 0: 1 << index)"""
+    rows = table_rows(g)
+    out = {}
+    for key, name in (('rset', 'RSET'), ('mail', 'MAIL FROM:'), ('rcpt', 'RCPT TO:')):
+        if name not in rows:
+            g.broken.append('qsmtpd/qsmtpd.c: %s row of commands[] not found' % name)
+            out[key + 'Mask'] = out[key + 'State'] = None
+            continue
+        i, mask, state, flags = rows[name]
+        out[key + 'Mask'] = mask
+        out[key + 'State'] = state if state > 0 else (1 << i) if state == 0 else None
+    return out
+
+
 def gen_bdat(g):
     tx, rx, qr = 'qremote/qrbdat.c', 'qsmtpd/data.c', 'qremote/qremote.c'
     body = func_body(g.text(tx) or '', 'send_bdat') or ''
@@ -45,6 +70,7 @@ def gen_bdat(g):
     if not lastblit:
         g.broken.append('%s:send_bdat: anchor " LAST\\r\\n" copy not found' % tx)
     mask, state, flags = bdat_row(g)
+    rc = row_consts(g)
     cm = g.text('CMakeLists.txt') or ''
     m2 = re.search(r'set\(INCOMING_CHUNK_SIZE (\d+)\)', cm)
     if not m2:
@@ -72,6 +98,15 @@ def gen_bdat(g):
         ('bdatMask', mask, 'qsmtpd.c commands[]: states in which BDAT is allowed'),
         ('bdatFlags', flags, 'qsmtpd.c commands[]: flags of BDAT'),
         ('bdatRowStateIsKeep', None if state is None else (1 if state < 0 else 0), 'qsmtpd.c commands[]: 1 iff the BDAT row leaves comstate alone (state < 0)'),
+        ('rsetMask', rc['rsetMask'], 'commands[]: states in which RSET is allowed'),
+        ('rsetState', rc['rsetState'], 'commands[]: state entered by RSET unless smtp_rset() overrides it'),
+        ('mailMask', rc['mailMask'], 'commands[]: states in which MAIL FROM: is allowed'),
+        ('mailState', rc['mailState'], 'commands[]: state after a successful MAIL FROM: (1 << row index)'),
+        ('rcptMask', rc['rcptMask'], 'commands[]: states in which RCPT TO: is allowed'),
+        ('rcptState', rc['rcptState'], 'commands[]: state after a successful RCPT TO: (1 << row index)'),
+        ('rsetBdatState', g.const('qsmtpd/commands.c', 'smtp_rset', r'if \(comstate == (0x[0-9a-fA-F]+)\)\s*queue_reset\(\);', 'open BDAT transfer test'), 'smtp_rset: comstate value for which queue_reset() is called'),
+        ('rsetHeloState', g.const('qsmtpd/commands.c', 'smtp_rset', r'if \(comstate >= (0x[0-9a-fA-F]+)\) \{\s*freedata\(\);', 'freedata threshold'), 'smtp_rset: freedata() and state (N << esmtp) when comstate >= N'),
+        _bytes('rsetReply', _lit(g, 'qsmtpd/commands.c', 'smtp_rset', r'netwrite\("(250 [^"]*)"\)', 'RSET reply'), 'smtp_rset: reply'),
         _bytes('bdatReplyNoRcpt', _lit(g, rx, 'smtp_bdat', r'netwrite\("(554 [^"]*)"\)', '554 reply'), 'smtp_bdat: reply without valid recipients'),
         _bytes('bdatReplyOkPre', _lit(g, rx, 'smtp_bdat', r'bdatmess\[\] = \{"([^"]*)", linein\.s \+ \d+, "[^"]*", NULL\}', '250 reply head'), 'smtp_bdat: bdatmess[0]'),
         _bytes('bdatReplyOkPost', _lit(g, rx, 'smtp_bdat', r'bdatmess\[\] = \{"[^"]*", linein\.s \+ \d+, "([^"]*)", NULL\}', '250 reply tail'), 'smtp_bdat: bdatmess[2]'),
